@@ -146,7 +146,10 @@ var EvoEdits = []EvoEdit{
 		if kind != 2 && pickInt(t, "addedViaAlias", 3) == 0 {
 			ty = addAlias(p, "AddedStepType", ty)
 		}
-		d.Fields = append(d.Fields, Field{Name: newFieldName(d, "addedStep"), Type: ty})
+		// anywhere in the sequence, not only at its end
+		pos := pickInt(t, "addedStepPos", len(d.Fields)+1)
+		nf := Field{Name: newFieldName(d, "addedStep"), Type: ty}
+		d.Fields = append(d.Fields[:pos:pos], append([]Field{nf}, d.Fields[pos:]...)...)
 		return d.Name, true
 	}},
 	{"add-optional-field", "compatible", func(t *rapid.T, p *Package, env *Env) (string, bool) {
@@ -233,9 +236,16 @@ var EvoEdits = []EvoEdit{
 	// ---- partially compatible (warning) ---------------------------------------------
 	{"change-numeric-primitive", "warning", func(t *rapid.T, p *Package, env *Env) (string, bool) {
 		var c []fieldPos
+		// the primitive itself, or the primitive inside one optional or vector ("recursively detects changes")
+		inner := func(x *Type) *Type {
+			if (x.Kind == KOptional || x.Kind == KVector) && x.Elem != nil && x.Elem.Kind == KPrim {
+				return x.Elem
+			}
+			return x
+		}
 		for _, fp := range fieldPositions(p, env, true, true) {
 			get, _ := payload(&fp.Def.Fields[fp.Idx])
-			if x := get(); x.Kind == KPrim && numericChain[x.Prim] != nil && !usesField(fp.Def, fp.Def.Fields[fp.Idx].Name) {
+			if x := inner(get()); x.Kind == KPrim && numericChain[x.Prim] != nil && !usesField(fp.Def, fp.Def.Fields[fp.Idx].Name) {
 				c = append(c, fp)
 			}
 		}
@@ -244,8 +254,16 @@ var EvoEdits = []EvoEdit{
 		}
 		fp := c[pickInt(t, "fld", len(c))]
 		get, set := payload(&fp.Def.Fields[fp.Idx])
-		alts := numericChain[get().Prim]
-		set(Prim(alts[pickInt(t, "to", len(alts))]))
+		cur := get()
+		alts := numericChain[inner(cur).Prim]
+		np := Prim(alts[pickInt(t, "to", len(alts))])
+		if cur.Kind == KPrim {
+			set(np)
+		} else {
+			cp := *cur
+			cp.Elem = np
+			set(&cp)
+		}
 		return fp.Def.Name + "." + fp.Def.Fields[fp.Idx].Name, true
 	}},
 	{"number-to-string", "warning", func(t *rapid.T, p *Package, env *Env) (string, bool) {
